@@ -366,7 +366,7 @@ class BodyIndex:
 
 
 class Engine:
-    def __init__(self, facts, maxdepth=60, inline_small=True):
+    def __init__(self, facts, maxdepth=160, inline_small=True):
         self.facts = facts
         self.maxdepth = maxdepth
         self.inline_small = inline_small
